@@ -11,5 +11,7 @@ import "verifharness/core"
 func init() { core.RegisterProp("C09", runC09) }
 
 func runC09(ctx *core.Ctx) {
+	runC09Corr(ctx)
+	ctx.Wait()
 	runC09Oracle(ctx)
 }
